@@ -91,12 +91,25 @@ contract(A + "_init_agent", params=dict(position="opt[list[val]]"), returns="Age
                   ("pure", "heap_unchanged()")],
          properties=["C01", "C02", "C05", "C06", "C11"])
 
+contract(A + "_init_agent_seeded", params=dict(seed="int"), returns="Agent", cases=OBJ_CASES,
+         requires=VALID_TASK + ["0 <= seed < 4294967296"],
+         raises={"ValueError": "(len(self._task.objective_weights) if self._task.objective_weights is not None else 1)"
+                               " != (1 if scalar_case() else nobj(self._task))"},
+         assigns=["rng"], fresh_result=True,
+         ensures=[("fresh", "fresh(result) and fresh(result.position)"),
+                  ("in-space", "Space(self._task, result.position)"),
+                  ("truthful-cost-and-fitness", "implies(scalar_case(), Valid(self._task, result))"),
+                  ("own-stream", "seeded_with(seed)"),
+                  ("pure", "heap_unchanged()")],
+         properties=["C11", "C01"])
+
 contract(A + "_generate_agents", params=dict(n_agents="int"), returns="list[Agent]", cases=OBJ_CASES,
          requires=VALID_TASK + ["n_agents >= 0", "self._workers >= 1"],
          raises={"ValueError": "n_agents > 0 and (len(self._task.objective_weights) if self._task.objective_weights is not None else 1)"
                                " != (1 if scalar_case() else nobj(self._task))"},
          assigns=["rng"],
          ensures=[("none-lost-none-duplicated", "len(result) == n_agents"),
+                  ("workers-do-not-replay-one-another", "own_streams()"),
                   ("fresh", "fresh(result) and all(fresh(result[k]) for k in range(n_agents))"),
                   ("all-in-space", "all(Space(self._task, result[k].position) for k in range(n_agents))"),
                   ("all-truthful", "implies(scalar_case(), all(Valid(self._task, result[k]) for k in range(n_agents)))"),
